@@ -30,6 +30,27 @@ class _NP:
         return out
 
 
+def _spacing(self, values):
+    """numpy.spacing(x): signed distance to the next representable value *away from zero*."""
+    import numpy as np
+    from symex import core as C
+
+    out = np.empty(values.shape, dtype=object)
+    for idx in np.ndindex(values.shape):
+        NEXT.setdefault('n', 0)
+        NEXT['n'] += 1
+        e = C.sym_var(f'ulp{NEXT["n"]}', sign='+')
+        if bool(C.R.lift(values[idx]) >= 0):
+            out[idx] = e
+            NEXT.setdefault('pairs', []).append((values[idx], values[idx] + e))
+        else:
+            out[idx] = -e  # x + spacing(x) is the next value *below* a negative x
+    return out
+
+
+_NP.spacing = _spacing
+
+
 NEXT: dict = {}
 
 
@@ -286,6 +307,15 @@ def replay_real(case):
                     got = [list(pl['plateau', i].value.values) for i in range(len(pl))]
                     if got != [[ys[i] for i in r] for r in want]:
                         bad.append(f'x={xs.tolist()} y={ys.tolist()} atol={at}: plateaus {got} vs {[[ys[i] for i in r] for r in want]}')
+                        break
+                    col = flt.collapse_plateaus(pl, coord='time')
+                    for bi, r in enumerate(want):
+                        lo, hi = col.coords['time'].values[bi]
+                        nxt = xs[r[-1]] + 1 if case['coord'] == 'int' else np.nextafter(xs[r[-1]], np.inf)
+                        if not (lo == xs[r[0]] and hi == nxt and all(lo <= xs[i] < hi for i in r)):
+                            bad.append(f'collapse of plateau {r} (times {xs[r].tolist()}): interval [{lo!r}, {hi!r}) instead of [{xs[r[0]]!r}, {nxt!r})')
+                            break
+                    if bad:
                         break
                 except RuntimeError:
                     pass
